@@ -90,7 +90,7 @@ def run_histories(res, model, prop):
 def run_loom(res):
     binary = check.cargo_build("rtloom", "release")
     configs = [(2, 2), (3, 1)] if res.tier == "quick" else [(2, 2), (3, 1), (3, 2), (4, 1)]
-    jobs = [(cpu, t, k) for cpu in ("avx2", "sse42", "none") for (t, k) in configs]
+    jobs = [(cpu, t, k) for cpu in ("avx2", "avx", "sse42", "none") for (t, k) in configs]
     total_exec = 0
     items = []
 
@@ -399,12 +399,13 @@ def run_lifetimes(res):
 def run_cachegrind(res):
     binary = build_variant("runtime", "release")
     fams = run([binary, "families"])[1].split()
-    base = 32 << 10 if res.tier == "quick" else 128 << 10
-    jobs = [(f, base * m) for f in fams for m in (1, 2, 4)]
+    base = 16 << 10 if res.tier == "quick" else 128 << 10
+    variants = ("complete", "truncated")
+    jobs = [(f, base * m, v) for f in fams for v in variants for m in (1, 2, 4)]
 
     def one(job):
-        f, n = job
-        rc, so, se, dt = run(["valgrind", "--tool=cachegrind", "--cache-sim=no", "--cachegrind-out-file=/dev/null", binary, "work", f, str(n)], timeout=1200)
+        f, n, v = job
+        rc, so, se, dt = run(["valgrind", "--tool=cachegrind", "--cache-sim=no", "--cachegrind-out-file=/dev/null", binary, "work", f, str(n), v], timeout=1200)
         m = re.search(r"I\s+refs:\s+([\d,]+)", se)
         if rc != 0 or not m:
             raise Machinery("cachegrind run failed for %s %d: %s" % (f, n, se[-500:]))
@@ -416,18 +417,55 @@ def run_cachegrind(res):
             counts[job] = n
     rows = []
     for f in fams:
-        a, b, c = (counts[(f, base * m)] for m in (1, 2, 4))
+      for v in variants:
+        a, b, c = (counts[(f, base * m, v)] for m in (1, 2, 4))
         d1, d2 = b - a, c - b
         ratio = d2 / max(d1, 1)
-        rows.append({"family": f, "sizes": [base, 2 * base, 4 * base], "instructions": [a, b, c], "increment_ratio": round(ratio, 2)})
+        rows.append({"family": f, "variant": v, "sizes": [base, 2 * base, 4 * base], "instructions": [a, b, c], "increment_ratio": round(ratio, 2)})
         if ratio > 3.0:
-            path = write_replay("C20-work-%s.json" % f, {"property": "C20", "kind": "work", "family": f, "base": base,
+            path = write_replay("C20-work-%s-%s.json" % (f, v), {"property": "C20", "kind": "work", "family": f, "variant": v, "base": base,
                                                           "instructions": [a, b, c], "what": "instruction count grows super-linearly with the buffer length (increment ratio %.2f > 3.0)" % ratio})
-            res.add_violation(path, "family %s: instructions %d/%d/%d" % (f, a, b, c))
+            res.add_violation(path, "family %s (%s): instructions %d/%d/%d" % (f, v, a, b, c))
     res.states += len(jobs)
     res.transitions += len(jobs)
     res.engines.append({"engine": "instruction counts (valgrind --tool=cachegrind --cache-sim=no on the release digest binary)",
-                        "rule": "I(4N)-I(2N) <= 3.0 x (I(2N)-I(N)); buffer construction is counted too", "rows": rows})
+                        "rule": "I(4N)-I(2N) <= 3.0 x (I(2N)-I(N)) for the complete input and for the input without its last 3 bytes; buffer construction is counted too", "rows": rows})
+
+
+# ------------------------------------------------------------------------------------------
+# C01: byte-granular bounds monitor (valgrind memcheck on exact-size heap buffers)
+# ------------------------------------------------------------------------------------------
+
+def run_memcheck(res):
+    binary = build_variant("runtime", "release")
+    lmax = 24 if res.tier == "quick" else 70
+    items = []
+
+    def one(backend):
+        cmd = ["valgrind", "-q", "--error-exitcode=9", "--partial-loads-ok=no", "--errors-for-leak-kinds=none",
+               binary, "memcheck", str(lmax), "--backend", backend]
+        return backend, cmd, run(cmd, timeout=3000)
+
+    with concurrent.futures.ThreadPoolExecutor(max_workers=3) as ex:
+        for backend, cmd, (rc, so, se, dt) in ex.map(one, ["avx2", "sse42", "scalar"]):
+            m = re.search(r"memcheck corpus: (\d+) calls", so)
+            if rc == 9 or "Invalid read" in se or "Invalid write" in se:
+                first = "\n".join(se.splitlines()[:14])
+                path = write_replay("C01-memcheck-%s.json" % backend, {
+                    "property": "C01", "kind": "memcheck", "backend": backend, "lmax": lmax,
+                    "what": "valgrind memcheck reports an access outside an exact-size heap buffer during a parse", "report": first})
+                log(first)
+                res.add_violation(path, "memcheck (%s): %s" % (backend, first.splitlines()[0] if first else ""))
+                continue
+            if rc != 0 or not m:
+                raise Machinery("memcheck leg failed to run (%s): rc=%d %s" % (backend, rc, se[-800:]))
+            n = int(m.group(1))
+            res.states += n
+            res.transitions += n
+            items.append({"backend": backend, "calls": n, "wall_s": round(dt, 1)})
+    res.engines.append({"engine": "memcheck monitor (valgrind --partial-loads-ok=no on the release digest binary; every buffer an exact-size heap allocation)",
+                        "space": "8 single-field frames x run length 0..=%d x every prefix from the start of the field x 5 start offsets inside the allocation x forced backends avx2/sse4.2/scalar" % lmax,
+                        "runs": items})
 
 
 # ------------------------------------------------------------------------------------------
@@ -441,6 +479,9 @@ def run_for(prop, tier, res):
         extra.append("histories: <= %d earlier calls drawn from 17 buffers x %d entry points per message kind, capacities 0..3; canonicalised by the snapshot of everything a later call can read, cross-checked by an un-canonicalised search one level shallower" % ((3, 3) if tier == "quick" else (4, 4)))
     elif prop == "C17":
         run_histories(res, "reuse", "C17")
+    elif prop == "C16":
+        run_histories(res, "reuse", "C16")
+        extra.append("entry-point agreement is also checked on re-used values: every history of <= 3 (4) earlier calls, initialised-array against uninit entry point of the same configuration")
     elif prop == "C02":
         run_histories(res, "delivery", "C02")
     elif prop == "C13":
@@ -452,6 +493,9 @@ def run_for(prop, tier, res):
             run_cross_targets(res, "C13", ["aarch64", "i686", "core-only"])
         extra.append("loom explores the C11 model of the one atomic; avx2/sse42/swar are stubs that record which backend ran on the simulated CPU")
         extra.append("thread timing is decided by loom's exhaustive schedules, not by racing free-running processes (that would be sampling)")
+    elif prop == "C01":
+        run_memcheck(res)
+        extra.append("guard pages see reads past a page-flush buffer end/start; the memcheck leg sees any read outside an exact-size heap buffer on its (smaller) enumerated corpus")
     elif prop == "C09":
         run_digests(res, "C09", partitions=[18, 19])
         extra.append("profile leg: chunk-size partitions of the digest corpus under release and dev (debug assertions) builds of every variant")
@@ -513,11 +557,16 @@ def replay(rep, path):
         if rep["expect"] == "reject":
             return 1 if rc == 0 else 0
         return 1 if rc != 0 else 0
+    if kind == "memcheck":
+        binary = build_variant("runtime", "release")
+        rc, so, se, _ = run(["valgrind", "-q", "--error-exitcode=9", "--partial-loads-ok=no", binary, "memcheck", str(rep["lmax"]), "--backend", rep["backend"]], timeout=3000)
+        print("\n".join(se.splitlines()[:30]))
+        return 1 if rc == 9 else 0
     if kind == "work":
         binary = build_variant("runtime", "release")
         vals = []
         for m in (1, 2, 4):
-            rc, so, se, _ = run(["valgrind", "--tool=cachegrind", "--cache-sim=no", "--cachegrind-out-file=/dev/null", binary, "work", rep["family"], str(rep["base"] * m)])
+            rc, so, se, _ = run(["valgrind", "--tool=cachegrind", "--cache-sim=no", "--cachegrind-out-file=/dev/null", binary, "work", rep["family"], str(rep["base"] * m), rep.get("variant", "complete")])
             vals.append(int(re.search(r"I\s+refs:\s+([\d,]+)", se).group(1).replace(",", "")))
         ratio = (vals[2] - vals[1]) / max(vals[1] - vals[0], 1)
         print("family %s: instructions %s, increment ratio %.2f" % (rep["family"], vals, ratio))
